@@ -27,7 +27,7 @@ def mutate(rng, text, options, n=None):
     for _ in range(n):
         lines = text.split("\n")
         op = rng.choice(["num_extreme", "num_extreme", "tok_del", "tok_dup", "tok_swap", "tok_keyword", "tok_option", "line_del", "line_dup", "line_swap", "truncate",
-                         "junk", "long_token", "del_end", "dash", "quote", "keyword_swap", "case", "number_to_word", "indent_cr", "repeat_block", "splice"])
+                         "junk", "long_token", "long_comment", "del_end", "dash", "quote", "keyword_swap", "case", "number_to_word", "indent_cr", "repeat_block", "splice"])
         names.append(op)
         if not lines:
             break
@@ -81,6 +81,10 @@ def mutate(rng, text, options, n=None):
         elif op == "long_token":
             toks.insert(rng.randrange(len(toks) + 1), rng.choice(["A", "9", "-", "x("]) * rng.choice([300, 2000, 9000]))
             lines[i] = " ".join(toks)
+        elif op == "long_comment":
+            # a trailing comment that makes the raw line longer than the reader's initial buffer while the data part stays short (or a continuation with a long tail)
+            tail = rng.choice(["#", ";#", " \\"]) + " " + rng.choice(["x", "comment ", "#"]) * rng.choice([1400, 4096, 5000, 20000])
+            lines[i] = lines[i] + " " + tail
         elif op == "del_end":
             lines = [l for l in lines if l.strip().upper() != "END"] if rng.random() < 0.5 else lines
             if lines and rng.random() < 0.5:
